@@ -28,8 +28,28 @@ fn live_insert(p: *mut c_void, n: usize) {
         return;
     }
     ALLOCS.fetch_add(1, Ordering::Relaxed);
+    if std::env::var_os("VERIF_ALLOC_BT").is_some() {
+        let bt = std::backtrace::Backtrace::force_capture().to_string();
+        BACKTRACES.lock().unwrap().get_or_insert_with(HashMap::new).insert(p as usize, bt);
+    }
     let mut g = LIVE.lock().unwrap();
     g.get_or_insert_with(HashMap::new).insert(p as usize, n);
+}
+static BACKTRACES: Mutex<Option<HashMap<usize, String>>> = Mutex::new(None);
+/// VERIF_ALLOC_BT=1: allocation backtraces of the allocations that are still live (debugging aid for replays)
+pub fn live_backtraces() -> String {
+    let g = LIVE.lock().unwrap();
+    let b = BACKTRACES.lock().unwrap();
+    let mut out = String::new();
+    if let (Some(m), Some(b)) = (&*g, &*b) {
+        for k in m.keys() {
+            if let Some(bt) = b.get(k) {
+                let lines: Vec<&str> = bt.lines().filter(|l| l.contains("ts_") || l.contains("tree_sitter") || l.contains("lib/src")).take(24).collect();
+                out.push_str(&format!("\n--- live allocation {k:#x}:\n{}", lines.join("\n")));
+            }
+        }
+    }
+    out
 }
 fn live_remove(p: *mut c_void) {
     if p.is_null() {
@@ -144,6 +164,9 @@ impl Check for C07 {
         300
     }
     fn run_case(&self, ctx: &mut Ctx, t: &mut Tape) {
+        // process-lifetime query caches of the highlight/tags runners are built before the counting allocator sees them
+        crate::checks::c17::warm();
+        crate::checks::c18::warm();
         install_allocator();
         let before = live_summary();
         if before.0 != 0 {
@@ -153,8 +176,8 @@ impl Check for C07 {
         UNKNOWN_FREE.store(0, Ordering::Relaxed);
         let scenario;
         if t.pct(65) {
-            let subs: Vec<&'static dyn Check> = vec![&crate::checks::session::C01, &crate::checks::c02::C02, &crate::checks::session::C04, &crate::checks::c05::C05, &crate::checks::c06::C06, &crate::checks::c09::C09, &crate::checks::c10::C10, &crate::checks::c11::C11, &crate::checks::c13::C13];
-            let k = t.weighted(&[16, 18, 10, 10, 10, 12, 8, 8, 8]);
+            let subs: Vec<&'static dyn Check> = vec![&crate::checks::session::C01, &crate::checks::c02::C02, &crate::checks::session::C04, &crate::checks::c05::C05, &crate::checks::c06::C06, &crate::checks::c09::C09, &crate::checks::c10::C10, &crate::checks::c11::C11, &crate::checks::c13::C13, &crate::checks::c17::C17, &crate::checks::c18::C18];
+            let k = t.weighted(&[16, 18, 10, 10, 10, 12, 8, 8, 8, 9, 7]);
             let sub = subs[k];
             scenario = format!("sub:{}", sub.id());
             ctx.label("sub:case");
@@ -177,7 +200,7 @@ impl Check for C07 {
         }
         let (n, bytes) = live_summary();
         if n > 0 {
-            ctx.fail(format!("C07:leak:{scenario}"), format!("{n} allocation(s), {bytes} bytes still live after every handle of the case was dropped; sample={}", ctx.out.sample));
+            ctx.fail(format!("C07:leak:{scenario}"), format!("{n} allocation(s), {bytes} bytes still live after every handle of the case was dropped; sample={}{}", ctx.out.sample, live_backtraces()));
             live_clear();
         }
         if ctx.out.hash == 0 {
